@@ -384,8 +384,8 @@ impl QueryTask {
             .map(|x| &x.limit)
             .unwrap_or(&self.main_phase.limit);
         let limit = lo.limit as usize;
-        let offset = lo.offset as usize;
-        let count = cmp::min(limit, full_result.len() - offset);
+        let offset = cmp::min(lo.offset as usize, full_result.len());
+        let count = cmp::min(limit, full_result.len().saturating_sub(offset));
         full_result.validate().unwrap();
 
         let mut rows = None;
